@@ -195,3 +195,26 @@ def lookupKey (w : Nat) : Nat := w
 def finds (keyIsWire : Bool) (bits ctr : Nat) : Bool := regKey keyIsWire bits ctr == lookupKey (wire (held bits ctr))
 
 end Model.C02.Ids
+
+/-!
+## The datagram reader (`readMsgUdp`)
+
+A udp socket hands the reader one datagram per `Read`, cut to the buffer it was given. Datagrams shorter than a dns
+header are skipped. The model keeps the length of the buffer the next `Read` gets: `full = true` is a reader that
+leaves the buffer alone when it skips a datagram (every `Read` gets the whole buffer), `full = false` one that
+re-slices the buffer to what it just read before it decides to skip it.
+-/
+namespace Model.C02.Udp
+
+def headerLen : Nat := 12
+
+/-- `readMsg full buf ds`: `ds` are the lengths of the datagrams in the socket, `buf` the length of the buffer the next
+`Read` gets; the result is the length of the message the reader returns (`none`: nothing returned, the reader is still
+reading when the datagrams are used up). -/
+def readMsg (full : Bool) : Nat → List Nat → Option Nat
+  | _, [] => none
+  | buf, d :: ds =>
+    let n := min buf d
+    if headerLen ≤ n then some n else readMsg full (if full then buf else n) ds
+
+end Model.C02.Udp
